@@ -1091,7 +1091,7 @@ class TextXVisitor(RRELVisitor):
         try:
             regex.compile()
         except Exception as e:
-            line, col = self.grammar_parser.pos_to_linecol(node[1].position)
+            line, col = self.grammar_parser.pos_to_linecol(node.position)
             raise TextXSyntaxError(str(e), line, col) from e
         return regex
 
